@@ -456,13 +456,8 @@ func (e *Exec) runGov(a *Action, obs *StepObs, discs *[]Disc) {
 		obs.Halted = true
 		return
 	}
-	h, d, halted := e.endBlock()
-	*discs = append(*discs, d...)
-	if halted {
-		obs.Halted = true
-		return
-	}
-	obs.AppHash = fmt.Sprintf("%X", h)
+	// the proposal is tallied and executed in this block's EndBlock: bring the model up to date
+	// first, so that per-block observers see both sides in the same state
 	if r1.OK() {
 		// deposit refunded, proposal executed
 		m.Bal["V"][mc.Nund] = new(big.Int).Add(m.BalOf("V", mc.Nund), big.NewInt(10))
@@ -478,6 +473,13 @@ func (e *Exec) runGov(a *Action, obs *StepObs, discs *[]Disc) {
 			}
 		}
 	}
+	h, d, halted := e.endBlock()
+	*discs = append(*discs, d...)
+	if halted {
+		obs.Halted = true
+		return
+	}
+	obs.AppHash = fmt.Sprintf("%X", h)
 }
 
 // Key computes the canonical state key (DESIGN 3.4).
